@@ -48,7 +48,7 @@ def run(ctx, prog, facts, tier):
     rules_geom.check_constants(ctx, prog, which=['LEFT_COLUMN_MASK', 'RIGHT_COLUMN_MASK', 'TOP_ROW_MASK',
                                                  'BOTTOM_ROW_MASK'], rule='C01.1')
     n = rules_geom.check_helper_footprints(ctx, prog, I, rule='C01.2')
-    ctx.floor('bitboard helper functions', n, 6)
+    ctx.setcount('bitboard_helper_functions_checked', n)
     rules_c01.check_support_argument(ctx, prog)
     rules_c01.check_strength_tables(ctx, prog, I)
     rules_c01.check_strictness(ctx, prog, I)
